@@ -127,7 +127,7 @@ def cases(tier, seed):
                 N = [rng.choice((2, 3)) for _ in range(d)]
                 cs.append({'gen': 'neg', 'row': 'wrong-type-axis', 'op': op, 'N': N, 'bad': bad, 'pos': rng.randrange(d)})
     # wrong index count / malformed index expressions
-    for form in ('too-few', 'too-many', 'ellipsis-middle', 'two-ellipsis', 'bare-int-order>1', 'bare-slice-order>1', 'float-index', 'str-index', 'ttm-mixed-pair', 'ttm-ellipsis', 'ttm-odd-count', 'mask-wrong-columns'):
+    for form in ('too-few', 'too-many', 'ellipsis-middle', 'two-ellipsis', 'bare-int-order>1', 'bare-slice-order>1', 'float-index', 'str-index', 'ttm-mixed-pair', 'ttm-ellipsis', 'ttm-odd-count', 'ttm-odd-count-surplus', 'ttm-too-many-pairs', 'mask-wrong-columns'):
         for d in (2, 3):
             for rep in range(max(1, k // 2)):
                 N = [rng.choice((2, 3)) for _ in range(d)]
@@ -135,7 +135,7 @@ def cases(tier, seed):
     # element-count mismatch, invalid permutations, size mismatches in argument lists
     for op in ('reshape', 'reshape_ttm_rows', 'reshape_ttm_cols', 'qtt_to_tens_sizes', 'qtt_to_tens_prefix_short', 'qtt_to_tens_prefix_short_rank1', 'qtt_to_tens_prefix_one_mode_rank1', 'qtt_to_tens_long', 'reshape_prefix_short', 'reshape_prefix_short_rank1', 'reshape_prefix_long', 'reshape_ttm_split', 'reshape_ttm_split_rank1', 'reshape_ttm_split_lead11', 'to_qtt_size3', 'to_qtt_size6', 'to_qtt_ttm_nonsquare', 'to_qtt_ttm_size3', 'permute_dup', 'permute_short', 'permute_long',
                'mprod_size', 'mprod_lists', 'mprod_repeated_mode', 'cat_mode_mismatch_before', 'cat_mode_mismatch_after', 'cat_mode_mismatch_both', 'cat_order', 'pad_too_many', 'dot_axis_size', 'dot_axis_count', 'dot_b_longer', 'dot_axis_duplicate', 'dot_axis_duplicate_rank1',
-               'ctor_shape_numel', 'ctor_shape_numel_divisor', 'ctor_shape_numel_divisor_numpy', 'ctor_shape_drops_a_mode', 'ctor_shape_numel_multiple', 'ctor_ttm_shape_numel', 'random_bad_R', 'set_core_rank', 'set_core_dims', 'mask_dense'):
+               'ctor_shape_numel', 'ctor_shape_numel_divisor', 'ctor_shape_numel_divisor_numpy', 'ctor_shape_drops_a_mode', 'ctor_shape_numel_multiple', 'ctor_ttm_shape_numel', 'random_bad_R', 'random_surplus_R', 'randn_surplus_R', 'randn_short_R', 'randn_boundary_R', 'set_core_rank', 'set_core_dims', 'mask_dense'):
         for rep in range(k):
             d = rng.choice((2, 3))
             N = [rng.choice((2, 3)) for _ in range(d)]
@@ -312,6 +312,8 @@ def build(case, g):
             'bare-int-order>1': (DOC, lambda: x[0]), 'bare-slice-order>1': (DOC, lambda: x[0:1]), 'float-index': (DOC, lambda: x[tuple([0.5] + [0] * (d - 1))]),
             'str-index': (DOC, lambda: x['a']), 'ttm-mixed-pair': (DOC, lambda: A[tuple([0] * d + [slice(None)] * d)]),
             'ttm-ellipsis': (DOC, lambda: A[(Ellipsis,) + tuple([0] * d)]), 'ttm-odd-count': (ANY, lambda: A[tuple([0] * (2 * d - 1))]),
+            'ttm-odd-count-surplus': (ANY, lambda: A[tuple([0] * (2 * d + 1))]),          # defect #46: the surplus index used to be ignored
+            'ttm-too-many-pairs': (ANY, lambda: A[tuple([0] * (2 * d + 2))]),
             'mask-wrong-columns': (ANY, lambda: x.apply_mask(torch.zeros((2, d + 1), dtype=torch.int64))),
         }
         ent = forms[form]
@@ -369,6 +371,10 @@ def build(case, g):
             'ctor_shape_numel_multiple': (ANY, lambda: tt.TT(torch.arange(float(dn.prod(N)), dtype=torch.float64).reshape(N) + 1.0, shape=list(N) + [2])),
             'ctor_ttm_shape_numel': (ANY, lambda: tt.TT(torch.ones(N + N, dtype=torch.float64), shape=[(a, b) for a, b in zip(Nb, N)])),
             'random_bad_R': (DOC, lambda: tt.random(N, [1] * d)),
+            'random_surplus_R': (ANY, lambda: tt.random(N, [1] + [2] * (d - 1) + [1, 7])),
+            'randn_surplus_R': (ANY, lambda: tt.randn(N, [1] + [2] * (d - 1) + [1, 7])),        # defect #47: the surplus entry used to be ignored
+            'randn_short_R': (ANY, lambda: tt.randn(N, [1] * d)),
+            'randn_boundary_R': (ANY, lambda: tt.randn(N, [2] + [2] * (d - 1) + [1])),
             'set_core_rank': (DOC, lambda: x.set_core(p, torch.ones((x.R[p] + 1, N[p], x.R[p + 1]), dtype=torch.float64))),
             'set_core_dims': (DOC, lambda: x.set_core(p, torch.ones((x.R[p], N[p], 1, x.R[p + 1]), dtype=torch.float64))),
             'mask_dense': (ANY, lambda: x.apply_mask(torch.zeros((2, d), dtype=torch.float64))),
